@@ -16,6 +16,18 @@ SBX_ROOT = core.BUILD / "sbx"
 _cli_path = None
 
 
+def _limit_memory():
+    """address-space limit for every CLI run of the checks (default 6 GB, RN_MEM_LIMIT_GB): a plan is quadratic in the length of a line for
+    patterns that match everywhere (`replace . x` on a 150 kB line asked for 64 GB and the kernel killed it - and could have killed anything
+    else); with the limit the allocation fails inside the process, which aborts with 'memory allocation of N bytes failed'"""
+    import resource
+    gb = int(os.environ.get("RN_MEM_LIMIT_GB", "6"))
+    try:
+        resource.setrlimit(resource.RLIMIT_AS, (gb << 30, gb << 30))
+    except Exception:
+        pass
+
+
 def cli_bin():
     global _cli_path
     if _cli_path is None:
@@ -74,7 +86,7 @@ class Sandbox:
         try:
             p = subprocess.run([bin or cli_bin()] + list(args), cwd=(cwd if isinstance(cwd, bytes) else str(cwd or self.root)), env=e,
                                input=stdin, stdout=subprocess.PIPE, stderr=subprocess.PIPE,
-                               timeout=timeout)
+                               timeout=timeout, preexec_fn=_limit_memory)
             return p.returncode, p.stdout, p.stderr
         except subprocess.TimeoutExpired as ex:
             return 124, ex.stdout or b"", (ex.stderr or b"") + b"\nTIMEOUT"
